@@ -24,7 +24,7 @@ def _plus(v, c):
 def template(rng, name):
     """-> (kind, source) ; the entry procedure is called `name`."""
     k = rng.choice(["shift", "shift", "guard", "guard", "callee", "callee", "alloc", "window", "divmod",
-                    "alias", "bounds", "twodim", "winarg", "assertuse"])
+                    "alias", "bounds", "twodim", "winarg", "assertuse", "sizearg", "sizearg"])
     A, B, C, D = _o(rng, 0, 3), _o(rng, 0, 3), _o(rng), _o(rng)
     if k == "shift":
         lo, hi = _o(rng, 0, 2), _o(rng, -1, 3)
@@ -100,6 +100,20 @@ def template(rng, name):
                f"    r = x[{_o(rng, 0, 1)}, 0:m]\n"
                f"    for j in seq(0, {_plus('m', _o(rng, -1, 1))}):\n"
                f"        y[{_plus('j', _o(rng, 0, 1))}] = r[j]\n")
+    elif k == "sizearg":
+        # a size parameter of a callee receives a compound size-typed expression that may be zero or negative;
+        # the callee relies on its size being positive only through a local allocation / its own loop
+        need = _o(rng, 0, 3)
+        e = rng.choice([_plus("n", -_o(rng, 1, 2)), f"n / {rng.choice([2, 3])}", f"n % {rng.choice([2, 3])}", "n - m",
+                        f"({_plus('n', -1)}) / 2", f"n - m + {_o(rng, 0, 1)}", _plus("n", 1), "m"])
+        body = rng.choice(["    t: f32[k]\n    for j in seq(0, k):\n        t[j] = 1.0\n    out[0] = t[k - 1]\n",
+                           "    t: f32[k]\n    t[0] = 2.0\n    out[0] = t[0]\n",
+                           "    for j in seq(0, k):\n        out[0] += 1.0\n"])
+        src = (f"@proc\ndef cnt_{name}(k: size, out: f32[1]):\n{body}\n"
+               f"@proc\ndef {name}(n: size, m: size, out: f32[1]):\n"
+               f"    assert n >= {need}\n"
+               + rng.choice(["", "    assert m <= n\n", "    assert m < n\n"]) +
+               f"    cnt_{name}({e}, out)\n")
     else:  # assertuse: the assertion is what makes the access safe (or just fails to)
         need = _o(rng, 1, 4)
         acc = _o(rng, 0, 4)
